@@ -4,9 +4,12 @@ import (
 	"context"
 	"crypto/ecdsa"
 	"crypto/elliptic"
+	"crypto/rand"
 	"crypto/x509"
 	"errors"
 	"io"
+	"math/big"
+	"net/url"
 	"time"
 
 	"github.com/spiffe/go-spiffe/v2/spiffeid"
@@ -46,6 +49,41 @@ func vNopLogger() logger.Logger {
 
 var errIssuer = errors.New("issuer failure")
 
+// vCert: in the engine a certificate is just its validity window (ID extraction is stubbed); natively a real
+// self-signed certificate with a SPIFFE URI SAN, so that the real x509svid.IDFromCert accepts it
+func vCert(nb, na time.Time) *x509.Certificate {
+	if zzverif.Symbolic() {
+		return &x509.Certificate{NotBefore: nb, NotAfter: na}
+	}
+	key, _ := ecdsa.GenerateKey(elliptic.P256(), rand.Reader)
+	u, _ := url.Parse("spiffe://example.org/ns/verif/app")
+	tmpl := &x509.Certificate{SerialNumber: big.NewInt(1), NotBefore: nb, NotAfter: na, URIs: []*url.URL{u}}
+	der, err := x509.CreateCertificate(rand.Reader, tmpl, tmpl, &key.PublicKey, key)
+	if err != nil {
+		panic(err)
+	}
+	c, err := x509.ParseCertificate(der)
+	if err != nil {
+		panic(err)
+	}
+	return c
+}
+
+// vCSRKey: natively, the public key inside a CSR (to observe key freshness without the key-generation stub)
+var vCSRKeys []string
+
+func vNoteCSR(csr []byte) {
+	if zzverif.Symbolic() {
+		return
+	}
+	req, err := x509.ParseCertificateRequest(csr)
+	if err != nil {
+		return
+	}
+	b, _ := x509.MarshalPKIXPublicKey(req.PublicKey)
+	vCSRKeys = append(vCSRKeys, string(b))
+}
+
 // Run, Ready and GetX509SVID are first called from three goroutines in any order: once the initial fetch finished
 // they all return; GetX509SVID gives the SVID iff the fetch succeeded.
 //
@@ -53,7 +91,7 @@ var errIssuer = errors.New("issuer failure")
 func VerifReadyOrder() {
 	vKeys = nil
 	fail := zzverif.Bool("initial_fetch_fails")
-	cert := &x509.Certificate{NotBefore: zzverif.TimeFromNanos(0), NotAfter: zzverif.TimeFromNanos(int64(2 * time.Hour))}
+	cert := vCert(zzverif.TimeFromNanos(0), zzverif.TimeFromNanos(int64(2*time.Hour)))
 	s := New(Options{Log: vNopLogger(), RequestSVIDFn: func(ctx context.Context, csr []byte) ([]*x509.Certificate, error) {
 		if fail {
 			return nil, errIssuer
@@ -118,18 +156,21 @@ func VerifRotation() {
 	vKeys = nil
 	t0 := zzverif.TimeFromNanos(1_000_000_000_000)
 	clk := zzverifstubs.NewClock(t0)
-	validity := zzverif.Int64("validity_ns")
-	zzverif.Assume(validity >= int64(20*time.Second))
-	zzverif.Assume(validity <= int64(3*time.Minute))
-	zzverif.Assume(validity%2 == 0)
-	cert1 := &x509.Certificate{NotBefore: t0, NotAfter: t0.Add(time.Duration(validity))}
-	cert2 := &x509.Certificate{NotBefore: t0.Add(time.Duration(validity)), NotAfter: t0.Add(time.Duration(validity) + 100*time.Hour)}
+	// whole seconds (certificates carry second resolution), an even number so that the half-life is a whole second too
+	secs := zzverif.Int64("validity_s")
+	zzverif.Assume(secs >= 10)
+	zzverif.Assume(secs <= 90)
+	validity := 2 * secs * int64(time.Second)
+	cert1 := vCert(t0, t0.Add(time.Duration(validity)))
+	cert2 := vCert(t0.Add(time.Duration(validity)), t0.Add(time.Duration(validity)+100*time.Hour))
+	vCSRKeys = nil
 	renewalFails := zzverif.Bool("first_renewal_fails")
 	fetches := 0
 	var fetchTimes []time.Time
 	s := New(Options{Log: vNopLogger(), RequestSVIDFn: func(ctx context.Context, csr []byte) ([]*x509.Certificate, error) {
 		var r []*x509.Certificate
 		var err error
+		vNoteCSR(csr)
 		zzverif.Ghost(func() {
 			fetches++
 			fetchTimes = append(fetchTimes, clk.Now())
@@ -191,6 +232,13 @@ func VerifRotation() {
 			}
 		}
 		zzverif.Assert(svid.PrivateKey == vKeys[len(vKeys)-1], "served_key_belongs_to_served_certificate")
+	} else {
+		zzverif.Assert(len(vCSRKeys) == fetches, "one_fresh_key_per_fetch")
+		for i := 0; i < len(vCSRKeys); i++ {
+			for j := i + 1; j < len(vCSRKeys); j++ {
+				zzverif.Assert(vCSRKeys[i] != vCSRKeys[j], "one_fresh_key_per_fetch")
+			}
+		}
 	}
 	cancel()
 	<-runDone
